@@ -51,6 +51,17 @@ class Finding:
                 'extra': self.extra}
 
 
+def _jsonable(x):
+    """evidence must never crash the check: stringify keys, fall back to repr for anything json cannot carry"""
+    if isinstance(x, dict):
+        return {str(k): _jsonable(v) for k, v in x.items()}
+    if isinstance(x, (list, tuple, set, frozenset)):
+        return [_jsonable(v) for v in (sorted(x, key=str) if isinstance(x, (set, frozenset)) else x)]
+    if isinstance(x, (str, int, float, bool)) or x is None:
+        return x
+    return repr(x)
+
+
 class Check:
     """One run of one property's rule set."""
 
@@ -88,6 +99,7 @@ class Check:
         self.notes.append(text)
 
     def sample(self, obj):
+        obj = _jsonable(obj)
         if len(self.samples) < 12:
             self.samples.append(obj)
 
